@@ -906,3 +906,59 @@ func (t *Term) str(depth int) string {
 }
 
 var _ = bits.Len
+
+// ubounds returns conservative unsigned bounds of a bit-vector term (used only
+// to leave impossible cells out of an ite chain over a table; [0, 2^w-1] when
+// nothing better is known).
+func ubounds(t *Term, depth int) (lo, hi uint64) {
+	full := uint64(1)<<t.Sort.W - 1
+	if t.Sort.W >= 64 {
+		full = ^uint64(0)
+	}
+	if t.Sort.K != SBV || depth > 12 {
+		return 0, full
+	}
+	switch t.Op {
+	case OpConst:
+		return t.Val, t.Val
+	case OpZExt:
+		return ubounds(t.Args[0], depth+1)
+	case OpIte:
+		l1, h1 := ubounds(t.Args[1], depth+1)
+		l2, h2 := ubounds(t.Args[2], depth+1)
+		return min(l1, l2), max(h1, h2)
+	case OpBAnd:
+		_, h1 := ubounds(t.Args[0], depth+1)
+		_, h2 := ubounds(t.Args[1], depth+1)
+		return 0, min(h1, h2)
+	case OpAdd:
+		l1, h1 := ubounds(t.Args[0], depth+1)
+		l2, h2 := ubounds(t.Args[1], depth+1)
+		if h1 <= full-h2 { // no wrap-around possible
+			return l1 + l2, h1 + h2
+		}
+	case OpMul:
+		l1, h1 := ubounds(t.Args[0], depth+1)
+		l2, h2 := ubounds(t.Args[1], depth+1)
+		if hiw, low := bits.Mul64(h1, h2); hiw == 0 && low <= full {
+			return l1 * l2, low
+		}
+	case OpShl:
+		if c := t.Args[1]; c.Op == OpConst && c.Val < 64 {
+			l1, h1 := ubounds(t.Args[0], depth+1)
+			if h1 <= full>>c.Val {
+				return l1 << c.Val, h1 << c.Val
+			}
+		}
+	case OpLShr:
+		if c := t.Args[1]; c.Op == OpConst && c.Val < 64 {
+			l1, h1 := ubounds(t.Args[0], depth+1)
+			return l1 >> c.Val, h1 >> c.Val
+		}
+	case OpURem:
+		if c := t.Args[1]; c.Op == OpConst && c.Val > 0 {
+			return 0, c.Val - 1
+		}
+	}
+	return 0, full
+}
